@@ -145,7 +145,11 @@ def run(chk):
                derived="%s" % sorted(t for t in a0.tags if t.startswith("ret:")), loc=tk[0].loc)
         chk.ob("R-IDX", c + "{cleaned peaks}", "the mapped indices are the detector's result on the cleaned array",
                "ret:determine_indices_of_peaks_for_cleaned_array" in a1.tags and "ret:clean_out_non_changing#0" in a1.tags,
-               derived="%s" % sorted(t for t in a1.tags if t.startswith("ret:")), loc=tk[0].loc)
+               derived="%s" % sorted(t for t in a1.tags if t.startswith("ret:")), loc=tk[0].loc,
+               # turning points found without the detector function (inline, another helper): not located; the detector called on something
+               # that is not the cleaned array is the located wrong instance ({detector input} below)
+               inconclusive="ret:determine_indices_of_peaks_for_cleaned_array" not in a1.tags and
+               not any(e.callee.endswith("determine_indices_of_peaks_for_cleaned_array") for e in r.events("call", GP)))
         chk.ob("R-IDX", c + "{result}", "ptype 'all' returns the mapped indices", r.ret.origin == frozenset([r.I.alloc_tok(type("F", (), {"fi": fi})(), tk[0].node)])
                or "ret:clean_out_non_changing#1" in r.ret.tags, derived="origin %s" % sorted(r.ret.origin), loc=fi.loc(), nontrivial=False)
     else:
